@@ -47,7 +47,7 @@ PROPS = {
              "layered stack (node source, equal spacings), two half-spaces in every axis orientation with direct/transmitted/head "
              "waves by 1-D Fermat minimisation, constant velocity gradient (closed form), each on grid h and h/2", props="props/C02.v",
              oracle_n=(45, 300)),
-    "C03": P(GS, SOLVER2 + SOLVER3, "proof",
+    "C03": P(GS + ["ApiGen"], SOLVER2 + SOLVER3, "proof",
              "Theorems: the solver raises ValueError exactly when the source is outside the closed domain (comparisons as "
              "written, NaN included); result shapes; sweeps never raise a node; over R every traveltime returned by the 2D and by the 3D solver is >= 0 "
              "(all spacings; the 3D statement was false before fix 7b708d7), in 2D 0 occurs exactly at the source node, in 3D dichotomy/partial/refutation in the placeholder regime. "
@@ -57,11 +57,11 @@ PROPS = {
              "adjacent nodes satisfies T_p <= T_q + d*min(slowness of the cells adjoining the edge), hence (R) no node is later than any grid path from any other node; the 4-point operator is never earlier than the "
              "diagonal neighbour and the 8-point candidate is discarded when earlier than the opposite corner (no-op on cubic cells). The global lower bound is "
              "examined on the implementation.", RULE_SOLVE, props="props/C04.v"),
-    "C05": P(GS + ["Vinterp2d", "Vinterp3d"], SOLVER2 + SOLVER3 + VINTERP, "proof",
+    "C05": P(GS + ["Vinterp2d", "Vinterp3d", "ApiGen"], SOLVER2 + SOLVER3 + VINTERP, "proof",
              "Theorems over R on the generated kernels: slowness- and length-homogeneity of t_ana, t_anad, delta, of one node update, of the "
              "2D source initialisation and of the WHOLE solvers fteik2d / fteik3d (placeholder caveat on the reference run); bit-for-bit power-of-two and 1e-9 general scaling of the whole pipeline are examined on the implementation.",
              RULE_SOLVE + "; scale factors 2^k (k=-9..9) and 10^u (u in [-3,3]), slowness or length", props="props/C05.v", api_corr="api"),
-    "C06": P(GS + ["Interp2d", "Interp3d", "Vinterp2d", "Vinterp3d"], SOLVER2 + SOLVER3 + INTERP + VINTERP, "proof",
+    "C06": P(GS + ["Interp2d", "Interp3d", "Vinterp2d", "Vinterp3d", "ApiGen"], SOLVER2 + SOLVER3 + INTERP + VINTERP, "proof",
              "Theorems: the kernels receive only (coordinate - origin) and the axes origin + k*spacing, the interpolators are "
              "translation invariant over R; bit-for-bit grids for representable translations are examined on the implementation.",
              RULE_SOLVE + "; origins incl. 1e6-scale, single and list calls", props="props/C06.v", oracle_n=(50, 400), api_corr="api"),
@@ -82,7 +82,7 @@ PROPS = {
              "in the source cell, node values, convex combination bounds, exactness on homogeneous times.",
              "traveltime grids constructed directly (exact homogeneous and perturbed), sources of all classes, query points of the "
              "classes interior/node/face/edge-corner/line/outside/source/near-source", props="props/C09.v", oracle_n=(80, 800)),
-    "C10": P(GR, RAYS + INTERP, "proof",
+    "C10": P(GR + ["ApiGen"], RAYS + INTERP, "proof",
              "Theorems on the generated free-step tracer: never runs out of fuel within the budget, first/last vertex, vertices inside "
              "the hull, buffer index below max_step, RuntimeError iff the budget is exhausted, ValueError iff the end point is outside, consecutive stored "
              "vertices at most one step apart and the last segment short unless the gradient vanishes there (finding F17, refuted unconditionally). "
@@ -100,24 +100,24 @@ PROPS = {
              "NUMBA_BOUNDSCHECK=1 on boundary-heavy inputs.",
              RULE_SOLVE + "; point evaluation and both ray modes on faces/edges/corners, tiny max_step", props="props/C12.v",
              mode="boundscheck", oracle_n=(25, 200)),
-    "C13": P(GALL, ["fteik2d", "fteik3d", "ray2d", "ray3d", "solve2d_list", "solve3d_list", "ray2d_list", "ray3d_list"], "proof",
+    "C13": P(GALL + ["ApiGen"], ["fteik2d", "fteik3d", "ray2d", "ray3d", "solve2d_list", "solve3d_list", "ray2d_list", "ray3d_list"], "proof",
              "Theorems: single-item kernels raise ValueError iff outside / RuntimeError iff budget; the list forms raise exactly "
              "what the first failing item raises and otherwise return the map of the items.",
              "offending item at every position of lists of length 2..5, thread counts {1,2,4,max}, outside by 1 ulp / far / NaN on each axis",
              props="props/C13.v", oracle_n=(50, 400), api_corr="api"),
-    "C14": P(GI, INTERP, "proof",
+    "C14": P(GI + ["ApiGen"], INTERP, "proof",
              "Theorems over R on the generated interpolators: equal to the textbook multilinear formula inside the hull (hence node "
              "values, convexity, multilinear exactness, continuity across faces, axis-swap equivariance); fill value outside (any instance). "
              "Agreement with SciPy is examined on the implementation.",
              "random fields and multilinear fields on 2..7 nodes per axis, all boundary classes of the hull", props="props/C14.v",
              oracle_n=(80, 800)),
-    "C15": P(GR, RAYS + INTERP, "proof",
+    "C15": P(GR + ["ApiGen"], RAYS + INTERP, "proof",
              "Theorems on the generated grid-honouring tracer: bounded number of iterations (vertex budget times free-step budget), "
              "contract of returned rays, shrink factor in [0,1] attained on a face, every interior vertex of a 2D ray on a grid line and of a 3D ray on a grid plane (R). Straightness, 'always returned when homogeneous' "
              "are examined on the implementation.",
              "models homogeneous/layered/gradient x square and elongated cells x end points on every face/edge/line", props="props/C15.v",
              oracle_n=(50, 400)),
-    "C16": P([], [], "proof",
+    "C16": P(["ApiGen"], [], "proof",
              "Theorems on the hand model of resample/smooth metadata: new spacing = spacing*old/new, extent preserved, sigma/spacing "
              "invariance; SciPy is a section variable with stated hypotheses. Values/range/constants/monotone and solve-after-edit are "
              "examined on the implementation.",
